@@ -1014,6 +1014,13 @@ pub trait ErasedVal {
     fn to_vec(&self) -> Result<Vec<u8>, EncErr>;
     fn cbor_len(&self) -> usize;
     fn decode_back(&self, bytes: &[u8]) -> DecOut;
+    /// the other public ways to encode / size the same value (each is a separate code path):
+    /// to_vec_with, encode, encode_with, Encoder::encode, Encoder::encode_with; len_with
+    fn alt_encodings(&self) -> Vec<(&'static str, Result<Vec<u8>, EncErr>)>;
+    fn alt_len(&self) -> usize;
+    /// the other public ways to decode the type: minicbor::decode, minicbor::decode_with, Decoder::decode_with
+    /// (position is None for the slice-level functions)
+    fn alt_decodes(&self, bytes: &[u8]) -> Vec<(&'static str, Result<Item, ErrClass>, Option<usize>)>;
     /// encode into `&mut [u8]` of the given capacity
     fn into_slice(&self, cap: usize) -> SinkOut;
     fn into_cursor_slice(&self, cap: usize) -> SinkOut;
@@ -1089,6 +1096,28 @@ where
     }
     fn decode_back(&self, bytes: &[u8]) -> DecOut {
         decode_as::<T>(bytes, 0)
+    }
+    fn alt_encodings(&self) -> Vec<(&'static str, Result<Vec<u8>, EncErr>)> {
+        let x = &self.v;
+        vec![
+            ("to_vec_with", minicbor::to_vec_with(x, &mut ()).map_err(|e| enc_class(&e))),
+            ("encode", { let mut b = Vec::new(); minicbor::encode(x, &mut b).map(|_| b).map_err(|e| enc_class(&e)) }),
+            ("encode_with", { let mut b = Vec::new(); minicbor::encode_with(x, &mut b, &mut ()).map(|_| b).map_err(|e| enc_class(&e)) }),
+            ("Encoder::encode", { let mut e = encode::Encoder::new(Vec::new()); let r = e.encode(x).map(|_| ()).map_err(|e| enc_class(&e)); r.map(|_| e.into_writer()) }),
+            ("Encoder::encode_with", { let mut e = encode::Encoder::new(Vec::new()); let r = e.encode_with(x, &mut ()).map(|_| ()).map_err(|e| enc_class(&e)); r.map(|_| e.into_writer()) }),
+        ]
+    }
+    fn alt_len(&self) -> usize {
+        minicbor::len_with(&self.v, &mut ())
+    }
+    fn alt_decodes(&self, bytes: &[u8]) -> Vec<(&'static str, Result<Item, ErrClass>, Option<usize>)> {
+        let mut d = Decoder::new(bytes);
+        let a = d.decode_with::<(), T>(&mut ());
+        vec![
+            ("minicbor::decode", minicbor::decode::<T>(bytes).map(|v| v.to_model()).map_err(|e| classify(&e)), None),
+            ("minicbor::decode_with", minicbor::decode_with::<(), T>(bytes, &mut ()).map(|v| v.to_model()).map_err(|e| classify(&e)), None),
+            ("Decoder::decode_with", a.map(|v| v.to_model()).map_err(|e| classify(&e)), Some(d.position())),
+        ]
     }
     fn into_slice(&self, cap: usize) -> SinkOut {
         let mut mem = vec![0x5au8; cap + 32];
@@ -1203,6 +1232,22 @@ where
     }
     fn decode_back(&self, bytes: &[u8]) -> DecOut {
         (self.dec)(bytes, 0)
+    }
+    fn alt_encodings(&self) -> Vec<(&'static str, Result<Vec<u8>, EncErr>)> {
+        let x = self.val;
+        vec![
+            ("to_vec_with", minicbor::to_vec_with(x, &mut ()).map_err(|e| enc_class(&e))),
+            ("encode", { let mut b = Vec::new(); minicbor::encode(x, &mut b).map(|_| b).map_err(|e| enc_class(&e)) }),
+            ("encode_with", { let mut b = Vec::new(); minicbor::encode_with(x, &mut b, &mut ()).map(|_| b).map_err(|e| enc_class(&e)) }),
+            ("Encoder::encode", { let mut e = encode::Encoder::new(Vec::new()); let r = e.encode(x).map(|_| ()).map_err(|e| enc_class(&e)); r.map(|_| e.into_writer()) }),
+            ("Encoder::encode_with", { let mut e = encode::Encoder::new(Vec::new()); let r = e.encode_with(x, &mut ()).map(|_| ()).map_err(|e| enc_class(&e)); r.map(|_| e.into_writer()) }),
+        ]
+    }
+    fn alt_len(&self) -> usize {
+        minicbor::len_with(self.val, &mut ())
+    }
+    fn alt_decodes(&self, _bytes: &[u8]) -> Vec<(&'static str, Result<Item, ErrClass>, Option<usize>)> {
+        Vec::new()
     }
     fn into_slice(&self, cap: usize) -> SinkOut {
         let mut mem = vec![0x5au8; cap + 32];
